@@ -41,6 +41,23 @@ theorem split_full_but_last (limit : Nat) (hl : 0 < limit) (body : Bytes) (i : N
   have _ := hl  -- not needed: holds for every limit
   splitBodyF_full_but_last limit body.length body i hi
 
+/-- Position-wise intactness: body frame `i` carries exactly bytes `[i·limit, (i+1)·limit)` of the
+    body, and frame `i` exists exactly when byte `i·limit` does (so nothing is reordered, repeated
+    or dropped between frames — stronger than `split_flatten` + `split_sizes` together). -/
+theorem split_piece (limit : Nat) (hl : 0 < limit) (body : Bytes) (i : Nat) :
+    (splitBody limit body)[i]? =
+      if i * limit < body.length then some ((body.drop (i * limit)).take limit) else none :=
+  splitBodyF_getElem? hl body.length body (Nat.le_refl _) i
+
+/-- Every encoded body frame fits the negotiated frame_max (`limit` = frame_max − 8). -/
+theorem split_encoded_fits (limit : Nat) (hl : 0 < limit) (body : Bytes) :
+    ∀ c ∈ splitBody limit body, encodedLen c ≤ limit + 8 := by
+  intro c hc
+  have := (split_sizes limit hl body c hc).2
+  unfold encodedLen
+  omega
+
+example : (splitBody 3 [1,2,3,4,5,6,7])[2]? = some [7] := by decide
 example : splitBody 3 [1,2,3,4,5,6] = [[1,2,3],[4,5,6]] := by decide
 example : splitBody 3 [1,2,3,4,5,6,7] = [[1,2,3],[4,5,6],[7]] := by decide
 
